@@ -102,7 +102,7 @@ int rstr_findat(struct rstr *rs, char *s, int off, int n, int *grps, int flg)
 	for (r = beg; r <= end; r++) {
 		if (rs->wbeg && r > s && (isword(r - 1) || !isword(r)))
 			continue;
-		if (rs->wend && r[len] && (!isword(r + len - 1) || isword(r + len)))
+		if (rs->wend && r[len] && (r + len == s || !isword(r + len - 1) || isword(r + len)))
 			continue;
 		if (!match_case(r, rs->str, rs->icase)) {
 			int i;
